@@ -147,6 +147,9 @@ def check_encoding(ctx, model, nptdms, segs, stats):
         if r.get("ok") and rx.get("ok"):
             la, lb = lazy_content(data, nptdms), lazy_content(xdata, nptdms)
             stats["lazy_normal_forms"] = stats.get("lazy_normal_forms", 0) + 1
+            for which, lx, dx in (("encoding", la, data), ("explicit normal form", lb, xdata)):
+                for pr in lx.pop("<problems>", []):
+                    vio.append(Violation("TdmsFile.open (%s): %s" % (which, pr), dict(kind="normalform-lazy", file=dx.hex(), explicit=xdata.hex(), encoding=gen_files.to_line(segs))))
             if la != lb:
                 diff = next((p for p in sorted(set(la) | set(lb)) if la.get(p) != lb.get(p)), None)
                 vio.append(Violation("TdmsFile.open: encoding and its explicit normal form read differently (%r: %s vs %s)" % (
@@ -154,8 +157,15 @@ def check_encoding(ctx, model, nptdms, segs, stats):
     return dis, vio
 
 
+def window_list(n):
+    """windows that start in one segment and end inside another (a function of n only, so both encodings get the same)"""
+    if n <= 9:
+        return [(o, l) for o in range(n) for l in range(1, n - o + 1)]
+    return [(0, n // 2 + 1), (1, max(n - 2, 0)), (n // 3, n // 3 + 1), (max(n - 3, 0), 2)] + [(o, n // 2) for o in range(0, n // 2, 2)]
+
+
 def lazy_content(data, nptdms):
-    """{path: (len, read_data(), data_chunks() concatenated, first / last element)} through TdmsFile.open"""
+    """{path: (len, read_data(), data_chunks() concatenated, first / last element, four windows)} through TdmsFile.open"""
     import corr_lazy as cl
     out = {}
     try:
@@ -166,11 +176,24 @@ def lazy_content(data, nptdms):
         n = len(ch)
         ent = [n]
         for fn in (lambda: cl.canon_out(ch.read_data(scaled=False)), lambda: [cl.chan_chunk(c._raw_data) for c in ch.data_chunks()],
-                   lambda: [canon.scalar_hex(ch[i]) for i in ([0, n - 1] if n else [])]):
+                   lambda: [canon.scalar_hex(ch[i]) for i in ([0, n - 1] if n else [])],
+                   # windows that start in one segment and end inside another (a function of n only, so both encodings get the same)
+                   lambda: [cl.canon_out(ch.read_data(o, l, scaled=False)) for o, l in window_list(n)]):
             r = cl.call(fn)
             ent.append(canon.norm(r[1]) if r[0] == "ok" else ("raised", r[1]))
         # chunk boundaries may differ between encodings only if the chunking differs; the explicit form keeps the chunking
         out[ch.path] = ent
+        # the windows against the slices of the full lazy read (both encodings may be read wrongly in the same way)
+        full, wins = ent[1], ent[4]
+        if isinstance(full, dict) and isinstance(full.get("data"), list) and isinstance(wins, list):
+            k = 0
+            for o, l in window_list(n):
+                w = wins[k]
+                k += 1
+                if not isinstance(w, dict) or w.get("data") != full["data"][o:o + l]:
+                    out.setdefault("<problems>", []).append("read_data(%d, %d) of %r gives %s, the slice of the full lazy read is %s" % (
+                        o, l, ch.path, str(w.get("data") if isinstance(w, dict) else w)[:80], str(full["data"][o:o + l])[:80]))
+                    break
     return out
 
 
